@@ -353,7 +353,13 @@ class ObjRun(object):
         spell = cfg.get("spell", "float")
         if cfg.get("far"):          # a start far from the origin (the initial simplex / population scale with it)
             spread = 60.0
-        if kind in ("DE", "DE2"):
+        if kind in ("DE", "DE2") and cfg.get("init") == "multinormal":
+            # the other documented ways to draw a population: they know no limits, so members may start anywhere
+            s.SetMultinormalInitialPoints(spelled([0.5] * dim, spell), rng.choice([None, 4.0, 9.0]))
+        elif kind in ("DE", "DE2") and cfg.get("init") == "sampled":
+            from mystic.math import Distribution
+            s.SetSampledInitialPoints(rng.choice([None, Distribution(np.random.normal, 0.5, 2.5)]))
+        elif kind in ("DE", "DE2"):
             s.SetRandomInitialPoints(spelled([-spread] * dim, spell), spelled([spread] * dim, spell))
         else:
             x0 = [rng.uniform(-spread, spread) or 0.5 for _ in range(dim)]
